@@ -23,10 +23,6 @@ def writeItoa (p : PF) (v : Int) : Option PF := do
   let p ← if v < 0 then PF.push p 45 else some p
   writeRev p (PF.digits 10 false v.natAbs)
 
-def toSigned (bits : Nat) (raw : Nat) : Int :=
-  let v : Nat := raw % 2 ^ bits
-  if v ≥ 2 ^ (bits - 1) then (v : Int) - (2 ^ bits : Nat) else v
-
 /-- the default `%g` of `pf_gtoa` -/
 def gSpec : Spec := { conv := 'g' }
 
@@ -54,50 +50,80 @@ def writeFormat (p : PF) (fmt : Bytes) (args : List Arg) : Option (Option PF) :=
     | none => none
     | some w => some (some { data := p.data.take k ++ w.data, length := p.length + w.length })
 
-/-- `gp_convert_va_arg(limit, out + length, args, type)` -/
-def printObj (p : PF) (o : Obj) : Option (Option PF) :=
-  match o.kind, o.val with
-  | 'c', .int raw | 'a', .int raw | 'A', .int raw => (PF.push p (UInt8.ofNat (raw % 256))).map some
-  | 'H', .int raw | 'I', .int raw => (PF.writeUInt p 10 false none (raw % 2 ^ 32)).map some
-  | 'L', .int raw | 'Q', .int raw => (PF.writeUInt p 10 false none (raw % 2 ^ 64)).map some
-  | 'b', .int raw => (PF.concat p (ascii (if raw % 2 ^ 32 ≠ 0 then "true" else "false"))).map some
-  | 'h', .int raw | 'i', .int raw => (writeItoa p (toSigned 32 raw)).map some
-  | 'l', .int raw | 'q', .int raw => (writeItoa p (toSigned 64 raw)).map some
-  | 'f', .dbl bits | 'd', .dbl bits => (PF.writeFloat p (floatPlan gSpec bits).1).map some
-  | 't', .str s => (PF.concat p (cstrlen s)).map some
-  | 'g', .str s => (PF.concat p s).map some
-  | 'p', .int raw =>
+/-- the GPType classes that are rendered alike -/
+inductive Kind where
+  | chr | u32 | u64 | bool | i32 | i64 | dbl | cstr | gstr | ptr
+deriving Repr, DecidableEq
+
+/-- protocol letter to GPType class (`F`, a format string, is handled by the caller) -/
+def kindOf (c : Char) : Option Kind :=
+  if c = 'c' ∨ c = 'a' ∨ c = 'A' then some .chr
+  else if c = 'H' ∨ c = 'I' then some .u32
+  else if c = 'L' ∨ c = 'Q' then some .u64
+  else if c = 'b' then some .bool
+  else if c = 'h' ∨ c = 'i' then some .i32
+  else if c = 'l' ∨ c = 'q' then some .i64
+  else if c = 'f' ∨ c = 'd' then some .dbl
+  else if c = 't' then some .cstr
+  else if c = 'g' then some .gstr
+  else if c = 'p' then some .ptr
+  else none
+
+/-- `gp_convert_va_arg(limit, out + length, args, type)`; `some none` = the value does not fit the type -/
+def printVal (p : PF) : Kind → Arg → Option (Option PF)
+  | .chr, .int raw => (PF.push p (UInt8.ofNat (raw % 256))).map some
+  | .u32, .int raw => (PF.writeUInt p 10 false none (raw % 2 ^ 32)).map some
+  | .u64, .int raw => (PF.writeUInt p 10 false none (raw % 2 ^ 64)).map some
+  | .bool, .int raw => (PF.concat p (if raw % 2 ^ 32 ≠ 0 then [116, 114, 117, 101] else [102, 97, 108, 115, 101])).map some
+  | .i32, .int raw => (writeItoa p (signedArg .none raw)).map some
+  | .i64, .int raw => (writeItoa p (signedArg .ll raw)).map some
+  | .dbl, .dbl bits => (PF.writeFloat p (floatPlan gSpec bits).1).map some
+  | .cstr, .str s => (PF.concat p (cstrlen s)).map some
+  | .gstr, .str s => (PF.concat p s).map some
+  | .ptr, .int raw =>
     if raw % 2 ^ 64 ≠ 0 then ((PF.concat p [48, 120]).bind fun p => PF.writeUInt p 16 false none (raw % 2 ^ 64)).map some
-    else (PF.concat p (ascii "(nil)")).map some
+    else (PF.concat p [40, 110, 105, 108, 41]).map some
   | _, _ => some none
 
-/-- the text of one object (`%g`, decimal integers, true/false, verbatim characters and strings) -/
-def objText (o : Obj) : Option Bytes :=
-  match o.kind, o.val with
-  | 'c', .int raw | 'a', .int raw | 'A', .int raw => some [UInt8.ofNat (raw % 256)]
-  | 'H', .int raw | 'I', .int raw => some (natDigits 10 false (raw % 2 ^ 32))
-  | 'L', .int raw | 'Q', .int raw => some (natDigits 10 false (raw % 2 ^ 64))
-  | 'b', .int raw => some (ascii (if raw % 2 ^ 32 ≠ 0 then "true" else "false"))
-  | 'h', .int raw | 'i', .int raw => some (fmtSigned { conv := 'd' } raw)
-  | 'l', .int raw | 'q', .int raw => some (fmtSigned { conv := 'd', len := .ll } raw)
-  | 'f', .dbl bits | 'd', .dbl bits => some (fmtFloat gSpec bits)
-  | 't', .str s => some (cstrlen s)
-  | 'g', .str s => some s
-  | 'p', .int raw => some (if raw % 2 ^ 64 ≠ 0 then [48, 120] ++ natDigits 16 false (raw % 2 ^ 64) else ascii "(nil)")
+def printObj (p : PF) (o : Obj) : Option (Option PF) :=
+  match kindOf o.kind with
+  | some k => printVal p k o.val
+  | none => some none
+
+/-- the text of one value: `%g`, decimal integers, true/false, verbatim characters and strings -/
+def valText : Kind → Arg → Option Bytes
+  | .chr, .int raw => some [UInt8.ofNat (raw % 256)]
+  | .u32, .int raw => some (natDigits 10 false (raw % 2 ^ 32))
+  | .u64, .int raw => some (natDigits 10 false (raw % 2 ^ 64))
+  | .bool, .int raw => some (if raw % 2 ^ 32 ≠ 0 then [116, 114, 117, 101] else [102, 97, 108, 115, 101])
+  | .i32, .int raw => some (fmtSigned { conv := 'd' } raw)
+  | .i64, .int raw => some (fmtSigned { conv := 'd', len := .ll } raw)
+  | .dbl, .dbl bits => some (fmtFloat gSpec bits)
+  | .cstr, .str s => some (cstrlen s)
+  | .gstr, .str s => some s
+  | .ptr, .int raw => some (if raw % 2 ^ 64 ≠ 0 then [48, 120] ++ natDigits 16 false (raw % 2 ^ 64) else [40, 110, 105, 108, 41])
   | _, _ => none
 
-/-- `gp_max_digits_in` / `gp_str_print_object_size`: the room `gp_str_print` reserves for an object -/
+def objText (o : Obj) : Option Bytes := (kindOf o.kind).bind fun k => valText k o.val
+
+/-- `gp_max_digits_in` / `gp_str_print_object_size` by GPType class (int-sized and long-long-sized integers) -/
+def valEstimate : Kind → Arg → Nat
+  | .chr, _ => 1
+  | .bool, _ => 5
+  | .cstr, .str s => (cstrlen s).length
+  | .gstr, .str s => s.length
+  | .dbl, _ => 15
+  | .ptr, _ => 18
+  | .u32, _ | .i32, _ => 4 * 18 / 8 + 2
+  | .u64, _ | .i64, _ => 8 * 18 / 8 + 2
+  | _, _ => 0
+
+/-- the room `gp_str_print` reserves for an object (short types get less) -/
 def sizeEstimate (o : Obj) : Nat :=
-  match o.kind, o.val with
-  | 'c', _ | 'a', _ | 'A', _ => 1
-  | 'b', _ => 5
-  | 't', .str s => (cstrlen s).length
-  | 'g', .str s => s.length
-  | 'f', _ | 'd', _ => 15
-  | 'p', _ => 18
-  | 'h', _ | 'H', _ => 2 * 18 / 8 + 2
-  | 'i', _ | 'I', _ => 4 * 18 / 8 + 2
-  | _, _ => 8 * 18 / 8 + 2
+  if o.kind = 'h' ∨ o.kind = 'H' then 2 * 18 / 8 + 2
+  else match kindOf o.kind with
+    | some k => valEstimate k o.val
+    | none => 0
 
 /-- how many of the following objects are arguments of the format string `fmt` -/
 def splitFmtArgs (fmt : Bytes) (rest : List Obj) : List Arg × List Obj :=
@@ -112,14 +138,15 @@ def printObjs (fuel : Nat) (p : PF) (objs : List Obj) (sep : Bool) : Option (Opt
   | _, [] => some (some p)
   | fuel + 1, o :: rest =>
     let step : Option (Option (PF × List Obj)) :=
-      match o.kind, o.val with
-      | 'F', .str fmt =>
-        let (args, rest') := splitFmtArgs fmt rest
-        match writeFormat p (cstrlen fmt) args with
-        | none => none
-        | some none => some none
-        | some (some p) => some (some (p, rest'))
-      | _, _ =>
+      if o.kind = 'F' then
+        match o.val with
+        | .str fmt =>
+          match writeFormat p (cstrlen fmt) (splitFmtArgs fmt rest).1 with
+          | none => none
+          | some none => some none
+          | some (some p) => some (some (p, (splitFmtArgs fmt rest).2))
+        | _ => some none
+      else
         match printObj p o with
         | none => none
         | some none => some none
@@ -149,11 +176,12 @@ def printText (fuel : Nat) (objs : List Obj) (ln : Bool) : Option Bytes :=
   | _, [] => some []
   | fuel + 1, o :: rest =>
     let one : Option (Bytes × List Obj) :=
-      match o.kind, o.val with
-      | 'F', .str fmt =>
-        let (args, rest') := splitFmtArgs fmt rest
-        (specFormat ((cstrlen fmt).length + 1) (cstrlen fmt) args).map fun t => (t, rest')
-      | _, _ => (objText o).map fun t => (t, rest)
+      if o.kind = 'F' then
+        match o.val with
+        | .str fmt =>
+          (specFormat ((cstrlen fmt).length + 1) (cstrlen fmt) (splitFmtArgs fmt rest).1).map fun t => (t, (splitFmtArgs fmt rest).2)
+        | _ => none
+      else (objText o).map fun t => (t, rest)
     match one with
     | none => none
     | some (t, rest) =>
